@@ -20,6 +20,8 @@ rule("C10.a", "no public function writes call-dependent state (grid, prices, oth
               "received as an argument, into a constructor-kept parameter of the asset, or into another asset", floor=25)
 rule("C10.e", "price data received by a set-up is never modified in place (directly or through an alias / element)", floor=6)
 rule("C10.f", "a mutable default argument (list / dict / object created in the signature) is never mutated", floor=10)
+rule("C03.f", "optimize() does not modify the problem it is called on (mapping, c, l, u, b are only read or copied): a relaxed "
+              "solve must not clear the boolean flags of the problem itself", floor=1)
 rule("C15.c", "the fix_time_window argument is not rewritten by the set-up (same window reused for every interval of a "
               "split problem, and by the caller afterwards)", floor=2, props=["C15", "C14"])
 
@@ -305,7 +307,7 @@ def _mutable_default(d) -> bool:
     return False
 
 
-@analysis("effects", ["C10.a", "C10.e", "C10.f", "C15.c"])
+@analysis("effects", ["C10.a", "C10.e", "C10.f", "C15.c", "C03.f"])
 def run(ctx):
     p = ctx.p
     an = ctx.memo("effects", lambda: EffectAnalysis(ctx))
@@ -395,3 +397,33 @@ def run(ctx):
                 elif own:
                     ctx.note("C10.a", fn, "self.%s (idempotent)" % attr, "; ".join(au.short(m.node, 70) for m in own[:3]))
     ctx.require(n_public >= 40, "fewer than 40 public functions analysed")
+
+    # ------------------------------------------------------------ C10.a: a set-up never overwrites a constructor-kept parameter
+    from .serialization import self_attr_writes
+    n_m = 0
+    for ci in sorted(p.classes.values(), key=lambda c: c.name):
+        if not (p.is_subclass(ci, "Asset") or ci.name == "Portfolio"):
+            continue
+        kept = ctor_attrs.get(ci.name, set())
+        for m in ci.methods.values():
+            if m.name in ("__init__", "set_timegrid"):
+                continue
+            n_m += 1
+            hits = [(a, st, v) for a, st, v in self_attr_writes(m) if a in kept]
+            if not hits:
+                ctx.ob("C10.a", m, "constructor-kept attributes are not overwritten", True, trivial=True)
+            for a, st, v in hits:
+                ctx.ob("C10.a", m, "self.%s overwritten" % a, False,
+                       "self.%s is a parameter given to the constructor (and persisted); %s overwrites it during set-up, so the next "
+                       "set-up of the same object - with another grid, unit or prices - starts from the value frozen by this one, and "
+                       "to_json no longer shows what the user passed" % (a, m.qualname), node=st)
+    ctx.require(n_m >= 30, "fewer than 30 asset / portfolio methods scanned")
+
+    # ------------------------------------------------------------ C03.f: optimize works on copies
+    opt = p.cls("OptimProblem").methods.get("optimize")
+    ctx.require(opt is not None, "OptimProblem.optimize vanished")
+    muts = [m for m in an.mutations(opt) if m.root in ("self.mapping", "self.c", "self.l", "self.u", "self.b", "self.cType")]
+    ctx.ob("C03.f", opt, "the problem is not modified by optimize()", not muts,
+           "optimize() changes the problem it is called on: %s. A later optimize() of the same object then solves another problem "
+           "(e.g. after make_soft_problem=True the boolean flags stay cleared and a MIP is silently solved as LP)" % "; ".join(
+               "%s: %s" % (p.where(m.node), au.short(m.node, 60)) for m in muts[:3]), node=(muts[0].node if muts else opt.node))
